@@ -140,7 +140,7 @@ def search(res, tier, boost=False):
     # small elements away, on the same side / arc, with overlapping
     # time intervals - pairs of a coarse and a fine level of one refinement hierarchy (ancestor of a leaf against a
     # neighbouring leaf).  On the shipped code the defect is below 1e-8 * scale for these.
-    times = [(0.0, 1.0), (0.0, 0.5), (0.5, 1.0), (0.25, 0.5), (0.5, 0.75)]
+    times = [(0.0, 1.0), (0.0, 0.5), (0.5, 1.0), (0.25, 0.5), (0.5, 0.75), (0.25, 0.75), (0.5, 1.5)]
     for cname in ('UnitSquare', 'Circle') if tier == 'quick' and not boost else ('UnitSquare', 'Circle', 'LShape', 'PiSquare'):
         gamma = make_curve(cname)
         with contextlib.redirect_stdout(io.StringIO()):
